@@ -132,3 +132,25 @@ Lemma bad_utxo_example :
   ex_step st (FinalizeInp 0 false) = (st, RInputErr 0 e_missing_utxo) /\
   ex_step st (Finalize false) = (st, RFinErrs [(0, e_missing_utxo)]).
 Proof. vm_compute. repeat split. Qed.
+
+(* two descriptors of the same output (script 7) that state different origins for key 1, a
+   taproot pair likewise: whichever update comes LAST decides every recorded origin
+   (BTreeMap::insert overwrites), also over a stale record left by somebody else *)
+Definition ex_desc2 (d : N) : dinfo :=
+  match d with
+  | 0%N => mkD false true 7%N (Some 8%N) None [(1%N, 2%N)] 0%N None [] []
+  | 1%N => mkD false true 7%N (Some 8%N) None [(1%N, 3%N)] 0%N None [] []
+  | 2%N => mkD true true 7%N None None [] 4%N (Some 5%N) [(6%N, 6%N)] [(1%N, 20%N); (4%N, 21%N)]
+  | _ => mkD true true 7%N None None [] 4%N (Some 5%N) [(6%N, 6%N)] [(1%N, 30%N); (4%N, 31%N)]
+  end.
+
+Lemma update_twice_example :
+  let a := mkIn None (Some (mkTxOut 1%N 7%N)) [] None None None [] None None [] [] [] [] None [] [] [] None None [] [] in
+  let st := mkPsbt 1%N 1 [a] in
+  let r := run ex_try ex_interp ex_desc2 ex_flag ex_flag ex_mall in
+  map i_bip32 (p_inputs (r [Update 0 0%N; Update 0 1%N] st)) = [[(1%N, 3%N)]] /\
+  map i_bip32 (p_inputs (r [Update 0 1%N; Update 0 0%N] st)) = [[(1%N, 2%N)]] /\
+  map i_taporigins (p_inputs (r [Update 0 2%N; Update 0 3%N] st)) = [[(1%N, 30%N); (4%N, 31%N)]] /\
+  map i_taporigins (p_inputs (r [Update 0 3%N; Update 0 2%N] st)) = [[(1%N, 20%N); (4%N, 21%N)]] /\
+  map i_taporigins (p_inputs (r [AddTapOrigin 0 1%N 99%N; Update 0 2%N] st)) = [[(1%N, 20%N); (4%N, 21%N)]].
+Proof. vm_compute. repeat split. Qed.
